@@ -273,9 +273,8 @@ Definition m_trim_suffix (e : enc) (p subject : list Z) : sres :=
 Definition m_repeat (e : enc) (n : Z) (subject : list Z) : sres :=
   if is_nil subject then RSeq e []
   else match e with
-       | EStr => RSeq e (ref_repeat (Z.to_nat n) subject)
+       | EStr | EBytes => RSeq e (ref_repeat (Z.to_nat n) subject)      (* strings.Repeat / bytes.Repeat *)
        | EArr => RSeq e (array_repeat (Z.to_nat n) subject)
-       | EBytes => RErr
        end.
 
 Definition m_concat (e : enc) (parts : list (list Z)) : sres :=
